@@ -36,8 +36,6 @@ var deviceCodeRE = regexp.MustCompile(`^[A-Za-z0-9_-]{22}$`)
 
 func formatSpace(c *engine.Check) engine.Space {
 	return engine.Space{
-		engine.D("router", rig.Routers...),
-		engine.D("client", "web", "pub", "norefresh", "ghost"),
 		engine.D("charset", engine.Pick(c, []string{"base20", "digits", "AB", "unicode", "single"}, []string{"base20", "digits", "AB", "unicode", "single", "hex"})...),
 		engine.D("amount", engine.Pick(c, []string{"8", "1", "4", "9"}, []string{"8", "1", "2", "4", "9", "32"})...),
 		engine.D("dash", engine.Pick(c, []string{"4", "0", "1", "3", "9"}, []string{"4", "0", "1", "2", "3", "8", "9", "40"})...),
@@ -46,6 +44,9 @@ func formatSpace(c *engine.Check) engine.Space {
 		engine.D("form", engine.Pick(c, []string{"path:/device", "path:/ui/device verify", "url:https://ui.example/device"},
 			[]string{"path:/device", "path:/ui/device verify", "url:https://ui.example/device", "path:", "url:http://ui.example:8080/x/y"})...),
 		engine.D("issuer", "static", "host", "hostpath", "forwarded"),
+		// fastest-varying last: one provider per configuration serves all router x client cases
+		engine.D("router", rig.Routers...),
+		engine.D("client", "web", "pub", "norefresh", "ghost"),
 	}
 }
 
